@@ -57,6 +57,106 @@ def run(chk, repo):
                         "is checked against size")
     chk.rule("C09.gain", "normalisation: gain = max of the column sums of |w| blocked by hop, window divided by gain when "
                          "non-zero; without window [1/ceil(size/hop)] * size")
+    chk.rule("C09.fresh", "a window that is modified in place (slice store / augmented assignment) was bound, on every path, "
+                          "to a newly built container (list(..), [..], np.array(..), ...): the caller's window object and "
+                          "whatever a window callable returns are never written to")
+    chk.rule("C09.detect", "the look-ahead on the block stream (peek) and the early return for an empty input happen only "
+                           "when the size has to be detected (under 'if size is None')")
+    FRESH_CALLS = ("list", "np.array", "np.hstack", "np.ones", "np.zeros", "array", "tuple", "sorted", "np.asarray_chkfinite")
+
+    def _fresh_value(v):
+        if isinstance(v, (ast.ListComp, ast.List, ast.BinOp)):
+            return True
+        return isinstance(v, ast.Call) and unparse(v.func) in FRESH_CALLS
+
+    def _refine(test, vals, taken):
+        """abstract values of wnd ('param', 'none', 'fresh', 'other') that can make `test` come out as `taken`"""
+        t = unparse(test)
+        if isinstance(test, ast.UnaryOp) and isinstance(test.op, ast.Not):
+            return _refine(test.operand, vals, not taken)
+        if t == "wnd is None":
+            return {("none" if v == "param" else v) for v in vals if v in ("param", "none")} if taken else \
+                {v for v in vals if v != "none"}
+        if t == "wnd is not None":
+            return _refine(ast.parse("wnd is None", mode="eval").body, vals, not taken)
+        if t == "wnd":
+            return {v for v in vals if v != "none"} if taken else set(vals)
+        if isinstance(test, ast.BoolOp) and isinstance(test.op, ast.And) and taken:
+            for v_ in test.values:
+                vals = _refine(v_, vals, True)
+            return vals
+        if isinstance(test, ast.BoolOp) and isinstance(test.op, ast.Or) and not taken:
+            for v_ in test.values:
+                vals = _refine(v_, vals, False)
+            return vals
+        return set(vals)
+
+    def _fresh_flow(stmts, state, out):
+        """state: set of abstract values wnd may hold; None when the block always leaves"""
+        for st in stmts:
+            if state is None:
+                return None
+            if isinstance(st, ast.Assign) and any(isinstance(t, ast.Name) and t.id == "wnd" for t in st.targets):
+                state = {"fresh"} if _fresh_value(st.value) else ({"none"} if unparse(st.value) == "None" else {"other"})
+            elif isinstance(st, ast.Assign) and any(isinstance(t, ast.Subscript) and unparse(t.value) == "wnd" for t in st.targets):
+                out.append((st, set(state)))
+            elif isinstance(st, ast.AugAssign) and unparse(st.target) == "wnd":
+                out.append((st, set(state)))
+            elif isinstance(st, ast.Expr) and isinstance(st.value, ast.Call) and isinstance(st.value.func, ast.Attribute) \
+                    and unparse(st.value.func.value) == "wnd" and st.value.func.attr in ("append", "extend", "insert", "pop",
+                                                                                          "reverse", "sort", "clear", "remove"):
+                out.append((st, set(state)))
+            elif isinstance(st, ast.If):
+                a = _fresh_flow(st.body, _refine(st.test, state, True), out)
+                b = _fresh_flow(st.orelse, _refine(st.test, state, False), out)
+                state = b if a is None else a if b is None else (a | b)
+            elif isinstance(st, (ast.For, ast.While)):
+                a = _fresh_flow(st.body, set(state), out)
+                state = state if a is None else (state | a)
+            elif isinstance(st, ast.Try):
+                a = _fresh_flow(st.body, set(state), out)
+                for h in st.handlers:
+                    b = _fresh_flow(h.body, set(state), out)
+                    a = b if a is None else a if b is None else (a | b)
+                state = a
+            elif isinstance(st, ast.With):
+                state = _fresh_flow(st.body, state, out)
+            elif isinstance(st, (ast.Return, ast.Raise)):
+                return None
+        return state
+    nfresh = 0
+    for sname in ("list", "numpy"):
+        fn_ = repo.strategy(LA, "overlap_add", sname).node
+        sites = []
+        _fresh_flow(docstring_free(fn_.body), {"param"}, sites)
+        for st, state in sites:
+            nfresh += 1
+            chk.decide(state <= {"fresh"}, "C09.fresh", W("overlap_add[%s]" % sname), short(st),
+                       why="on some path wnd is still the caller's object (or the object a window callable returned) when it "
+                           "is written to: the caller's window is changed / shared between calls", node=st)
+        npk = 0
+        for n in ast.walk(fn_):
+            is_peek = isinstance(n, ast.Call) and isinstance(n.func, ast.Attribute) and n.func.attr in ("peek", "take") \
+                and "blk_sig" in unparse(n.func.value)
+            is_ret = isinstance(n, ast.Return) and n.value is None
+            if not (is_peek or is_ret):
+                continue
+            npk += 1
+            p_, guarded = n, False
+            while p_ is not None and p_ is not fn_:
+                par = getattr(p_, "_parent", None)
+                if isinstance(par, ast.If) and any(p_ is x for x in par.body) and unparse(par.test) in ("size is None",):
+                    guarded = True
+                    break
+                if isinstance(par, ast.If) and any(p_ is x for x in par.orelse) and unparse(par.test) in ("size is not None",):
+                    guarded = True
+                    break
+                p_ = par
+            chk.decide(guarded, "C09.detect", W("overlap_add[%s]" % sname), "%s at line %d" % (short(n), n.lineno),
+                       why="with a given size nothing is read ahead and an empty input still flushes the (zero) memory; "
+                           "outside 'if size is None' the first block is always peeked / the generator may end early", node=n)
+        chk.floor("C09.detect", npk, 2, "peek / bare return sites in overlap_add[%s]" % sname)
+    chk.floor("C09.fresh", nfresh, 1, "in-place window updates")
     for sname in ("list", "numpy"):
         fn = repo.strategy(LA, "overlap_add", sname).node
         Wn = W("overlap_add[%s]" % sname)
